@@ -16,7 +16,7 @@ TEXT = {
         engine="choice (E1)",
         design_ref="DESIGN.md §3 C11",
         technique="tiered bounded-exhaustive generation of AML programs from the supported grammar subset, encoded by an independent encoder and compared with a reference namespace built from the AST; differential cross-check on an overlay with the kept candidate repair",
-        text="T1 every construct (20) x name form (7) x container (13) x PkgLength encoding; T2 53 call/field/operator/module-level programs (forward, backward and nested calls, calls inside If/While/Store/Add/DerefOf/Index, calls with operator arguments, calls as the last operand of module-level operators, operators nested in SuperName operands such as SizeOf(DerefOf(Index(..))), module-level code) x containers and every ordered pair of constructs; T3 nested containers; T4 two- and three-table loads on one parser (Scope into / call into an earlier table; later tables after a table with deferred Buffer/While/Package blocks); T5 chains of Scope / relocation blocks that need several resolve passes, in every order. For every program the reference accepts: ParseAML succeeds, every named object is found at the absolute path ACPI scoping gives it with its declared kind, constants/strings/buffer bytes/field offset+width/mutex level carry the encoded values, every method invocation anywhere has exactly the declared number of arguments attached, no named object sits at a path the program does not declare. Failures whose program exhibits one of the two known root causes (by structural predicate) are reported as known findings and must pass on a second build with the kept repair applied through the overlay; any other failure is a violation.",
+        text="T1 every construct (20) x name form (7) x container (13) x PkgLength encoding; T2 55 call/field/operator/module-level programs (field unit widths around every length-encoding boundary, forward, backward and nested calls, calls inside If/While/Store/Add/DerefOf/Index, calls with operator arguments, calls as the last operand of module-level operators, operators nested in SuperName operands such as SizeOf(DerefOf(Index(..))), module-level code) x containers and every ordered pair of constructs; T3 nested containers; T4 two- and three-table loads on one parser (Scope into / call into an earlier table; later tables after a table with deferred Buffer/While/Package blocks); T5 chains of Scope / relocation blocks that need several resolve passes, in every order. For every program the reference accepts: ParseAML succeeds, every named object is found at the absolute path ACPI scoping gives it with its declared kind, constants/strings/buffer bytes/field offset+width/mutex level carry the encoded values, every method invocation anywhere has exactly the declared number of arguments attached, no named object sits at a path the program does not declare. Failures whose program exhibits one of the two known root causes (by structural predicate) are reported as known findings and must pass on a second build with the kept repair applied through the overlay; any other failure is a violation.",
         note="Programs up to the tier sizes; conditionally declared objects (If at table level) are dynamic and outside the static namespace.",
     ),
     "C12": dict(
@@ -30,7 +30,7 @@ TEXT = {
         engine="choice (E1)",
         design_ref="DESIGN.md §3 C20",
         technique="bounded-exhaustive enumeration of generated source trees x every iteration order of every map-typed range (Go's map iteration turned into an explorer choice by a go/types-driven rewrite) against an independent scanner",
-        text="redirects.go is type-checked and every map-typed range in it is rewritten to iterate in an order the explorer chooses; FindRedirects then runs on generated trees (every single item and ordered pair of 11 declaration kinds incl. look-alikes on vars, types, in bodies, detached or trailing comments, prose mentions; triples; multi-file trees with nested directories, _test.go and non-Go files; directory and file names that are prefixes of one another) under every iteration order (full product for one map, deviation-bounded across several). The table must contain exactly the (source symbol, fully qualified destination) pairs an independent go/parser scanner finds on function declarations, and must be identical under every explored iteration order; the kernel tree itself is checked against the scanner.",
+        text="redirects.go is type-checked and every map-typed range in it is rewritten to iterate in an order the explorer chooses; FindRedirects then runs on generated trees (every single item and ordered pair of 11 declaration kinds incl. look-alikes on vars, types, in bodies, detached or trailing comments, prose mentions; triples; multi-file trees with nested directories, _test.go and non-Go files; directory and file names that are prefixes of one another; large files whose annotation starts at every offset around the 4 KiB boundaries 1,2,3,4,16) under every iteration order (full product for one map, deviation-bounded across several). The table must contain exactly the (source symbol, fully qualified destination) pairs an independent go/parser scanner finds on function declarations, and must be identical under every explored iteration order; the kernel tree itself is checked against the scanner.",
         note="Any deterministic order is accepted; the ELF symbol lookup (CompleteRedirects) is outside the property.",
     ),
     "C18": dict(
@@ -58,14 +58,14 @@ TEXT = {
         engine="choice (E1)",
         design_ref="DESIGN.md §3 C14",
         technique="bounded-exhaustive enumeration of firmware memory images through the real probe + DriverInit",
-        text="~64k images (thorough: all four tables): root pointer at every admissible 16-byte slot of the search window, revision 0/2, decoys with a valid signature and bad checksum before/after, every order of the listed tables, every subset corrupted, FADT with 32-/64-bit/both DSDT pointers, DSDT valid/corrupt, a root pointer with a bad checksum only, bad-checksum structures corrupted in the first 20 bytes or only in the extended part, of the same or the other revision, arbitrary bytes behind a revision-0 structure; plus the first/last admissible slots of the real 0xe0000-0xfffff area. Oracles: the pointer is found iff valid, the 32-bit root table is followed for revision 0 and the 64-bit one otherwise, the registered table map equals {tables whose bytes sum to zero} plus the DSDT of a valid FADT, each corrupt table is reported as skipped exactly once and enumeration continues.",
+        text="~64k images (thorough: all four tables): root pointer at every admissible 16-byte slot of the search window, revision 0/2, decoys with a valid signature and bad checksum before/after, every order of the listed tables, every subset corrupted, FADT with 32-/64-bit/both DSDT pointers, DSDT valid/corrupt, a root pointer with a bad checksum only, bad-checksum structures corrupted in the first 20 bytes or only in the extended part, of the same or the other revision, arbitrary bytes behind a revision-0 structure, listed tables and DSDTs of 2047..200000 bytes filled with large byte values; plus the first/last admissible slots of the real 0xe0000-0xfffff area. Oracles: the pointer is found iff valid, the 32-bit root table is followed for revision 0 and the 64-bit one otherwise, the registered table map equals {tables whose bytes sum to zero} plus the DSDT of a valid FADT, each corrupt table is reported as skipped exactly once and enumeration continues.",
         note="Identity-map seams; the revision-2 checksum is taken over the 40-byte Go struct (4 bytes after the structure kept zero).",
     ),
     "C15": dict(
         engine="choice (E1)",
         design_ref="DESIGN.md §3 C15",
         technique="bounded-exhaustive enumeration of format token sequences x argument lists against a reference formatter through a non-storing comparing sink; allocation counter over a pre-built batch",
-        text="Formats of 1-2 tokens (full product) and 3 tokens (third free) over 38 tokens (literals, %%, %d/%x/%o/%s with widths {absent,0,1,5,31,32,33,1000}, %t, a 10^6-wide %s) x 47 argument values (every built-in integer type at 0, +-1, min, max; strings / byte slices of length 0..40; bools; float, nil, struct, uint as wrong types), with too-short and too-long argument lists, are compared byte-exactly with a strconv-based reference written from the statement; the 1-token x argument and 2-token x first-argument products run again with no sink set (Printf and Fprintf(nil) into the early ring buffer, handed over to the first sink and compared). Every format string of length <=4 (5) over 9 bytes never panics. runtime.MemStats.Mallocs does not move across a pre-built batch of 5k calls (bisected to a case if it does).",
+        text="Formats of 1-2 tokens (full product) and 3 tokens (third free) over 48 tokens (literals, %%, %d/%x/%o/%s with widths {absent,0,1,5,31,32,33,1000}, integer widths {256,260,65541}, %258s, %t, a 10^6-wide %s) x 47 argument values (every built-in integer type at 0, +-1, min, max; strings / byte slices of length 0..40; bools; float, nil, struct, uint as wrong types), with too-short and too-long argument lists, are compared byte-exactly with a strconv-based reference written from the statement; the 1-token x argument and 2-token x first-argument products run again with no sink set (Printf and Fprintf(nil) into the early ring buffer, handed over to the first sink and compared). Every format string of length <=4 (5) over 9 bytes never panics. runtime.MemStats.Mallocs does not move across a pre-built batch of 5k calls (bisected to a case if it does).",
         note="Allocation freedom is as compiled by the pinned host toolchain.",
     ),
     "C08": dict(
